@@ -182,18 +182,20 @@ def coq_eval(tag: str, files: dict[str, str], timeout: int = 900) -> dict[str, t
     names = list(files)
     results: dict[str, tuple[int, str]] = {}
     idx = 0
-    running: dict[str, subprocess.Popen] = {}
+    running: dict[str, Any] = {}
     while idx < len(names) or running:
         while idx < len(names) and len(running) < NPROC:
             n = names[idx]
             idx += 1
-            running[n] = subprocess.Popen(
+            outf = open(d / f"{n}.out", "w")
+            running[n] = (subprocess.Popen(
                 ["timeout", str(timeout), "coqc", "-Q", str(COQ), "RV", f"{n}.v"],
-                cwd=d, stdout=subprocess.PIPE, stderr=subprocess.STDOUT, text=True,
-            )
-        for n, p in list(running.items()):
+                cwd=d, stdout=outf, stderr=subprocess.STDOUT, text=True,
+            ), outf)
+        for n, (p, outf) in list(running.items()):
             if p.poll() is not None:
-                results[n] = (p.returncode, p.stdout.read())
+                outf.close()
+                results[n] = (p.returncode, (d / f"{n}.out").read_text(errors="replace"))
                 del running[n]
         time.sleep(0.02)
     return results
